@@ -404,17 +404,163 @@ def r20_5(run):
                        'is returned by find() for good' % (src(late[0].ast)[:40] if late else ''))
 
 
+def r20_6(run):
+    """which field of the ADDRMAP line is the expiry.  control-spec: `ADDRMAP name addr "local-time"|NEVER [error=..] [EXPIRES="utc"]`;
+    txtorcon's parser hands over the space-separated fields, and the caller compares with utcnow(), so the UTC time is the one to
+    use: the EXPIRES= keyword's value when present, else a bare fourth field (old Tors: local then UTC), else the third field.
+    Path enumeration of Addr.update per line form, tests decided on the form; the last definition of the value that reaches the
+    time parser is resolved to a field index"""
+    u = M_(run, AD(run), 'update')
+    g = cfg_of(u)
+    sp = [c for c in calls_in(u) if callee_attr(c) == 'strptime' and c.args and isinstance(c.args[0], ast.Name)]
+    if len(sp) != 1:
+        raise Undecided('Addr.update: expected one strptime(<name>, fmt), found %d' % len(sp))
+    V = sp[0].args[0].id
+    A = u.node.args.vararg.arg if u.node.args.vararg else None
+    if A is None:
+        raise Undecided('Addr.update no longer takes *args')
+
+    # the selection may live in a helper that gets the fields: analyse that function, its returns being the uses
+    asg = [assign_to(n, V) for n in walk_unit(u) if isinstance(n, ast.Assign) and assign_to(n, V) is not None]
+    helper = None
+    if asg and all(isinstance(v, ast.Call) and len(v.args) == 1 and dotted(v.args[0].value if isinstance(v.args[0], ast.Starred) else v.args[0]) == A for v in asg):
+        hs_ = set(dotted(v.func) for v in asg)
+        if len(hs_) == 1:
+            nm = hs_.pop()
+            helper = run.idx.unit(MOD + '.' + nm) if '.' not in nm else (run.idx.find_method(AD(run), nm.split('.', 1)[1]) if nm.startswith('self.') else None)
+            if helper is None:
+                raise Undecided('Addr.update: the expiry text comes from %s(), which was not resolved' % nm)
+    if helper is not None:
+        u = helper
+        g = cfg_of(u)
+        ps_ = [p for p in u.params if p != 'self']
+        A = u.node.args.vararg.arg if u.node.args.vararg else (ps_[0] if ps_ else None)
+        V = None
+        sp = [None]
+
+    def uses(n):
+        if n.ast is None or n.kind not in ('stmt', 'test'):
+            return False
+        if helper is not None:
+            return n.kind == 'stmt' and isinstance(n.ast, ast.Return) and n.ast.value is not None
+        if isinstance(n.ast, ast.Assign) and assign_to(n.ast, V) is not None:
+            return False
+        for x in node_asts(n):
+            if x is sp[0]:
+                return True
+            if isinstance(x, ast.Compare) and mentions(x, V) and any(const(c) == 'NEVER' for c in x.comparators):
+                return True
+        return False
+
+    def field_of(e, trail, depth=0):
+        """index into args that expression e denotes at the end of trail (None = unknown, 'kw' = keyword value)"""
+        if isinstance(e, ast.IfExp):
+            r = eval_small(e.test, CURENV[0])
+            if r is UNKNOWN:
+                return None
+            return field_of(e.body if r else e.orelse, trail, depth)
+        if isinstance(e, ast.Subscript) and dotted(e.value) == A and isinstance(const(e.slice), int):
+            return const(e.slice)
+        if isinstance(e, ast.Subscript) and isinstance(e.slice, ast.Slice) and isinstance(e.value, ast.Name):
+            return ('kw', e.value.id, const(e.slice.lower))
+        if isinstance(e, ast.Name) and depth < 4:
+            for i in range(len(trail) - 1, -1, -1):
+                n = trail[i][0]
+                if n.kind != 'stmt' or not isinstance(n.ast, ast.Assign):
+                    continue
+                for t in n.ast.targets:
+                    if dotted(t) == e.id:
+                        return field_of(n.ast.value, trail[:i], depth + 1)
+                    if isinstance(t, (ast.Tuple, ast.List)):
+                        for k_, el in enumerate(t.elts):
+                            if dotted(el) == e.id:
+                                v = n.ast.value
+                                if dotted(v) == A or (isinstance(v, ast.Subscript) and dotted(v.value) == A and isinstance(v.slice, ast.Slice) and v.slice.lower is None):
+                                    return k_
+                                if isinstance(v, (ast.Tuple, ast.List)) and len(v.elts) == len(t.elts):
+                                    return field_of(v.elts[k_], trail[:i], depth + 1)
+                                return None
+        return None
+
+    CURENV = [{}]
+    FORMS = [('three fields (name addr time)', 3, 2), ('four bare fields (name addr local-time utc-time)', 4, 3)]
+    for label, n_args, want in FORMS:
+        env = {'len(%s)' % A: n_args, '%s[2]' % A: '2030-01-01 00:00:00', 'expires': None}
+        env.pop('expires')
+        CURENV[0] = env
+
+        def hook(node, val, trail, env=env):
+            t = src(node.ast)
+            if 'startswith' in t and 'expires=' in t.lower():
+                return False
+            if '=' in t and "'='" in t:
+                return None
+            r = eval_small(node.ast, env)
+            return None if r is UNKNOWN else bool(r)
+        ps = [p_ for p_ in g.paths(eval_hook=hook, stop=uses, loop_bound=1, follow_exc=False) if uses(p_.last)]
+        run.paths_enumerated += len(ps)
+        if not ps:
+            raise Undecided('Addr.update: no path reaches the use of the expiry text for the form %s' % label)
+        seen = set()
+        for p_ in ps:
+            trail = p_.steps[:-1]
+            last = None
+            if helper is not None:
+                last = (len(trail), p_.last.ast.value)
+            for i in range(len(trail) - 1, -1, -1) if helper is None else []:
+                n = trail[i][0]
+                if n.kind == 'stmt' and isinstance(n.ast, ast.Assign) and assign_to(n.ast, V) is not None:
+                    last = (i, assign_to(n.ast, V))
+                    break
+            if last is None:
+                got = field_of(ast.Name(id=V, ctx=ast.Load()), trail)
+            else:
+                got = field_of(last[1], trail[:last[0]])
+            if got in seen:
+                continue
+            seen.add(got)
+            if got is None or isinstance(got, tuple):
+                run.undecide('R20.6', u.qual, 'the expiry text of the form "%s" could not be resolved to a field (%s)' % (label, src(last[1]) if last else V))
+                continue
+            run.ob('R20.6', u, last[1] if last else u.node, 'expiry field for the form: %s is field %d' % (label, want), got == want, slot='expiry-field:%d-fields' % n_args,
+                   message='for an ADDRMAP line with %s the expiry is taken from field %d instead of field %d%s' %
+                           (label, got, want, ': the local-time field is compared with utcnow(), so the mapping expires early/late by the host\'s UTC offset' if n_args == 4 else ''),
+                   path=p_.describe(8))
+    # keyword form: the value is what follows 'expires=' (slice at the length of the prefix that was tested)
+    k = 0
+    for t in [n for n in g.live if n.kind == 'test' and n.ast is not None and 'startswith' in src(n.ast)]:
+        pre = [const(c.args[0]) for c in ast.walk(t.ast) if isinstance(c, ast.Call) and callee_attr(c) == 'startswith' and c.args and isinstance(const(c.args[0]), str)]
+        if not pre or pre[0].lower() != 'expires=':
+            continue
+        tested = set(x.id for c in ast.walk(t.ast) if isinstance(c, ast.Call) and callee_attr(c) == 'startswith' for x in ast.walk(c.func) if isinstance(x, ast.Name))
+        for n in g.real_nodes():
+            if n.kind == 'stmt' and isinstance(n.ast, (ast.Assign, ast.Return)) and g.edge_dominates(t, 'T', n):
+                v = n.ast.value
+                # the statement that takes the value out of the tested field (whatever local it goes to)
+                if v is None or not tested or not any(isinstance(x, ast.Name) and x.id in tested for x in ast.walk(v)):
+                    continue
+                k += 1
+                ok = isinstance(v, ast.Subscript) and isinstance(v.slice, ast.Slice) and v.slice.upper is None and \
+                    (const(v.slice.lower) == len(pre[0]) or src(v.slice.lower) in ("len('%s')" % pre[0], 'len("%s")' % pre[0]))
+                ok = ok or (isinstance(v, ast.Subscript) and isinstance(v.value, ast.Call) and callee_attr(v.value) in ('split', 'partition') and const(v.value.args[0]) == '=')
+                run.ob('R20.6', u, n.ast, 'the keyword value is what follows EXPIRES=', ok, slot='expiry-keyword-slice', message='the EXPIRES= value is taken as %s' % src(v))
+    run.floor('R20.6', 'EXPIRES= keyword legs', k, 1)
+
+
 RULES = [
     ('R20.5', 'ordering: every store of a mapping precedes the call that may expire it synchronously', r20_5),
     ('R20.1', 'local type inference: every timedelta used as a delay is read through total_seconds() (never .seconds alone)', r20_1),
     ('R20.2', 'insert/remove key agreement: stored under name and address, removed under both, address key kept in step on updates', r20_2),
     ('R20.3', 'timer discipline by path enumeration over (pending timer, new mapping kind): exactly one timer for a timed mapping, none after NEVER/error', r20_3),
+    ('R20.6', 'expiry field selection per ADDRMAP line form (3 fields / 4 bare fields / EXPIRES= keyword), by path enumeration with the form deciding the tests', r20_6),
     ('R20.4', '"added" only for a new name, "expired" only from _expire, once each', r20_4),
 ]
 
 from ..selftest import M  # noqa: E402
 F = 'txtorcon/addrmap.py'
 MUTANTS = [
+    M('expiry-always-third-field', F, "                if args[2] == 'NEVER':\n                    gmtexpires = args[2]\n                else:\n                    gmtexpires = args[3]", "                gmtexpires = args[2]", ['R20.6']),
+    M('expiry-keyword-slice-short', F, "                gmtexpires = arg[8:]", "                gmtexpires = arg[7:]", ['R20.6']),
     M('local-now', F, "        self.created = datetime.datetime.utcnow()", "        self.created = datetime.datetime.now()", ['R20.3']),
     M('added-only-with-timer', F, "            a.update(*params)\n            self.notify(\"addrmap_added\", *[a], **{})", "            a.update(*params)\n            if a.expiry is not None:\n                self.notify(\"addrmap_added\", *[a], **{})", ['R20.4']),
     M('cached-no-ignored', F, "            a = self.addr[params[0]]\n", "            a = self.addr[params[0]]\n            if a.expires is None and len(params) > 3:\n                return\n", ['R20.5']),
@@ -435,6 +581,7 @@ MUTANTS = [
     M('added-always', F, "            a.update(*params)\n            self.notify(\"addrmap_added\", *[a], **{})", "            a.update(*params)\n        self.notify(\"addrmap_added\", *[self.addr.get(params[0])], **{})", ['R20.4']),
 ]
 TWINS = [
+    M('expiry-field-by-conditional-expression', F, "            if len(args) == 3:\n                gmtexpires = expires\n            else:\n                if args[2] == 'NEVER':\n                    gmtexpires = args[2]\n                else:\n                    gmtexpires = args[3]", "            gmtexpires = args[3] if len(args) > 3 and args[2] != 'NEVER' else args[2]"),
     M('aware-utc-now', F, "        self.created = datetime.datetime.utcnow()", "        self.created = datetime.datetime.now(datetime.timezone.utc).replace(tzinfo=None)"),
     M('days-and-seconds', F, "self.expiry.reset(max(0, diff.total_seconds()))", "self.expiry.reset(max(0, diff.days * 86400 + diff.seconds))"),
     M('cancel-inline', F, "        if self.expires is None:\n            # a permanent mapping: a timer from an earlier, timed\n            # mapping must not remove it\n            self._cancel_expiry()\n", "        if self.expires is None:\n            if self.expiry is not None and self.expiry.active():\n                self.expiry.cancel()\n            self.expiry = None\n"),
